@@ -162,7 +162,7 @@ func (e *Engine) verifyFunc(ct *Contract) (res *FuncVC) {
 		if cl.InScope && cl.Attached == 0 {
 			c.leave("call-site assertion never in scope: " + cl.Text)
 		}
-		if !cl.InScope && cl.Attached == 0 && (cl.Kind == "assert_before_call" || cl.Kind == "assert_after_call") {
+		if !cl.InScope && !cl.Never && cl.Attached == 0 && (cl.Kind == "assert_before_call" || cl.Kind == "assert_after_call") {
 			// the call the contract speaks about is gone (or is no longer the k-th call
 			// to that function): what was asserted there no longer holds anywhere
 			o := c.oblige(cl.Kind, fmt.Sprintf("%s:%s/unattached#%d", cl.Kind, cl.Name, cl.Idx), "true", "false", c.pos(fn.Pos()))
